@@ -77,8 +77,14 @@ def run_scenario (scn, schedule, policy, seed):
   pct = None
   if policy == "pct":
     pct = [rng.randrange(10, 1500) for _ in range(3)]
-  ctl = ilv.Controller(_codes["c"], schedule=schedule, policy=policy, rng=rng,
-                       max_steps=60000, pct_points=pct)
+  instr = []
+  if scn.get("instr"):
+    # the submission side of the hand-off at instruction granularity
+    instr = [f.__code__ for f in (rc.CallLaterTask.callLater,
+                                  rc.Scheduler.fast_schedule)]
+  ctl = ilv.Controller([c for c in _codes["c"] if c not in instr],
+                       schedule=schedule, policy=policy, rng=rng,
+                       max_steps=60000, pct_points=pct, instr_codes=instr)
   shim = ilv.ThreadingShim(ctl)
   saved = (rc.threading, rc.Thread, rc.defaultScheduler, rc.select)
   class SelectShim (object):
@@ -123,6 +129,19 @@ def run_scenario (scn, schedule, policy, seed):
           obs["wakes"] += 1
           state["sleeper_runs"] = state.get("sleeper_runs", 0) + 1
           yield False
+    if scn.get("napper"):
+      # a cooperative task that keeps registering short timed waits with the
+      # hub while the foreign threads do their hand-offs: each registration is
+      # itself a hand-off (scheduler thread -> hub thread) through the hub's
+      # incoming queue and pinger
+      class Napper (rc.BaseTask):
+        def run (self_):
+          for i in range(scn["napper"]):
+            state["naps_started"] = state.get("naps_started", 0) + 1
+            yield 0.001
+            state["naps_done"] = state.get("naps_done", 0) + 1
+          yield False
+      Napper().start(sched, fast=True)
     tick = Ticker(); tick.start(sched, fast=True)
     sleeper = Sleeper(); sleeper.start(sched, fast=True)
     state["sleeper"] = sleeper
@@ -183,6 +202,18 @@ def run_scenario (scn, schedule, policy, seed):
     sched = state.get("sched")
     if sched is None: return False
     if obs["phase"] == "work":
+      hub = sched._selectHub
+      try:
+        stranded = not hub._incoming.empty()
+      except Exception:
+        stranded = False
+      if stranded:
+        obs["violations"].append((
+          "hand-off relies on the polling timeout",
+          "every thread is blocked while a task's registration sits in the "
+          "select hub's incoming queue (its wake-up ping was consumed without "
+          "the queue being read); only the hub's poll timeout finds it"))
+        return False
       wake_needed = state.get("wake_pending") and \
           state.get("sleeper_runs", 0) <= state.get("last_wake_runs", 0)
       if obs["pending"] > 0 or wake_needed:
@@ -342,6 +373,10 @@ SCENARIOS = [
   dict(threads=[["sync2"], ["sync"]], threaded_hub=False, start_first=True),
   dict(threads=[["rl", "sync"], ["wake", "cl"]], threaded_hub=True, start_first=True),
   dict(threads=[["cl"], ["wake"], ["sync"]], threaded_hub=True, start_first=False),
+  dict(threads=[["cl"], ["cl"]], threaded_hub=False, start_first=True, instr=True),
+  dict(threads=[["cl", "cl"], ["wake"]], threaded_hub=True, start_first=True, instr=True),
+  dict(threads=[["cl"]], threaded_hub=True, start_first=True, napper=3),
+  dict(threads=[["wake"], ["cl"]], threaded_hub=True, start_first=True, napper=2),
 ]
 
 
@@ -480,6 +515,12 @@ def plan (tier, seed):
     sp += [dict(mode="lock", ntasks=2, nlocks=2, shard=i, nshards=40) for i in range(2)]
     sp += [dict(mode="lock", ntasks=3, nlocks=1, shard=i, nshards=600) for i in range(2)]
     sp += [dict(mode="mass", sizes=[1, 2, 1023, 1024, 1025, 2048, 3000])]
+    # (the scenarios with a napping task: more of the budget, two preemptions)
+    for i in range(len(SCENARIOS)):
+      if SCENARIOS[i].get("napper") or SCENARIOS[i].get("instr"):
+        sp.append(dict(mode="dfs", scn=i, bound=2, limit=1500))
+        sp.append(dict(mode="rand", scn=i, n=600, policy="random", sub=100 + i, fixed=True))
+        sp.append(dict(mode="rand", scn=i, n=600, policy="pct", sub=200 + i, fixed=True))
     return sp
   sp = []
   for i in range(len(SCENARIOS)):
@@ -582,7 +623,8 @@ def run (spec, rep):
   elif spec["mode"] == "rand":
     sigs = set()
     for i in range(spec["n"]):
-      scn = SCENARIOS[(spec["scn"] + i) % len(SCENARIOS)]
+      scn = SCENARIOS[spec["scn"] if spec.get("fixed") else
+                      (spec["scn"] + i) % len(SCENARIOS)]
       obs = do_schedule(scn, [], spec["policy"],
                         "c07/%d/%d/%d" % (spec["seed"], spec["sub"], i), rep)
       if obs is not None: sigs.add((repr(scn), obs["sig"]))
